@@ -1,0 +1,92 @@
+//go:build verif
+
+package tor
+
+import (
+	"context"
+	"math/rand/v2"
+
+	"github.com/jech/storrent/peer"
+)
+
+// VerifInit prepares a torrent for being stepped by the verification
+// harness without its event loop: what AddTorrent and run() set up.
+func VerifInit(t *Torrent, seed uint64) {
+	t.Event = make(chan peer.TorEvent, 512)
+	t.Done = make(chan struct{})
+	t.Deleted = make(chan struct{})
+	t.rand = rand.New(rand.NewPCG(seed, seed+1))
+}
+
+// VerifHandleEvent handles one event as the event loop would.
+func VerifHandleEvent(ctx context.Context, t *Torrent, e peer.TorEvent) error {
+	return handleEvent(ctx, t, e)
+}
+
+// VerifStop releases the tickers a stepped torrent may have started.
+func VerifStop(t *Torrent) { t.setRequestInterval(0) }
+
+func VerifRequest(t *Torrent, p *peer.Peer, chunks []uint32) error { return request(t, p, chunks) }
+func VerifPeriodicRequest(ctx context.Context, t *Torrent)         { periodicRequest(ctx, t) }
+func VerifRequestMetadata(t *Torrent) error                        { return requestMetadata(t, nil) }
+
+func (t *Torrent) VerifInFlight() []uint8 {
+	return append([]uint8{}, t.inFlight...)
+}
+
+func (t *Torrent) VerifAvailable() []uint16 {
+	return append([]uint16{}, t.available...)
+}
+
+func (t *Torrent) VerifPeers() []*peer.Peer {
+	return append([]*peer.Peer{}, t.peers...)
+}
+
+// VerifAddPeer registers a peer without starting it.
+func (t *Torrent) VerifAddPeer(p *peer.Peer) {
+	p.Pieces = &t.Pieces
+	t.peers = append(t.peers, p)
+}
+
+// VerifRequested returns, for each requested piece, its priorities and
+// whether somebody waits for it.
+func (t *Torrent) VerifRequested() (map[uint32][]int8, map[uint32]bool) {
+	prio := make(map[uint32][]int8)
+	wait := make(map[uint32]bool)
+	for i, r := range t.requested.pieces {
+		prio[i] = append([]int8{}, r.prio...)
+		wait[i] = r.done != nil
+	}
+	return prio, wait
+}
+
+// VerifInfoState describes the metadata assembly buffer.
+func (t *Torrent) VerifInfoState() (size int, have []bool, votes map[uint32]int) {
+	size = len(t.Info)
+	have = make([]bool, len(t.infoRequested))
+	for i := range have {
+		have[i] = t.infoBitmap.Get(i)
+	}
+	votes = make(map[uint32]int)
+	for s, c := range t.infoSizeVotes {
+		votes[s] = c
+	}
+	return
+}
+
+// VerifFileChunk is one element of the mapping of a torrent range to files.
+type VerifFileChunk struct {
+	Path       []string
+	FileLength int64
+	Offset     int64
+	Length     int64
+	Pad        bool
+}
+
+func VerifFileChunks(t *Torrent, index, offset, length uint32) []VerifFileChunk {
+	var r []VerifFileChunk
+	for _, fc := range fileChunks(t, index, offset, length) {
+		r = append(r, VerifFileChunk{fc.path, fc.filelength, fc.offset, fc.length, fc.pad})
+	}
+	return r
+}
